@@ -7,7 +7,9 @@ import (
 )
 
 // Theory `ast-valid` (DESIGN §5.1): what go/parser + go/types guarantee about the syntax tree of a file that
-// parses and type-checks. The facts are stated about the ENTRY heap arrays of go/ast struct fields and are
+// parses and type-checks. Every fact is guarded by tnode(n) - "n is a node of a parsed tree": walker entry points
+// receive tree nodes, children of tree nodes are tree nodes, astcopy copies of tree nodes are tree nodes. Nodes a checker
+// builds itself and the all-zero sentinel nodes returned by astcast.ToX on a type mismatch are NOT tree nodes. The facts are stated about the ENTRY heap arrays of go/ast struct fields and are
 // emitted lazily, when a function first touches the field. They are assumptions (listed in the evidence).
 //
 // Deliberately absent: anything about the number of arguments of a call derived from the spelling of its
@@ -91,17 +93,21 @@ func (g *gen) astValidAxioms(key, name, sort string) {
 			g.assumeGlobal(fmt.Sprintf("(forall ((%s Int)) (! (=> (private %s) (private (s_base (select %s %s)))) :pattern ((select %s %s))))", pn, pn, name, pn, name, pn))
 		}
 	}
+	g.declTnode()
+	sel := app("select", name, n)
 	switch {
 	case sort == arr("Int", "Int") && isPtr:
 		if !astNilable[tf] {
-			g.assumeGlobal(fmt.Sprintf("(forall ((%s Int)) (! (=> (not (= %s 0)) (not (= (select %s %s) 0))) :pattern ((select %s %s))))", n, n, name, n, name, n))
+			g.assumeGlobal(fmt.Sprintf("(forall ((%s Int)) (! (=> (tnode %s) (tnode %s)) :pattern (%s)))", n, n, sel, sel))
+		} else {
+			g.assumeGlobal(fmt.Sprintf("(forall ((%s Int)) (! (=> (and (tnode %s) (not (= %s 0))) (tnode %s)) :pattern (%s)))", n, n, sel, sel, sel))
 		}
 	case sort == arr("Int", "Iface"):
 		if !astNilable[tf] {
-			g.assumeGlobal(fmt.Sprintf("(forall ((%s Int)) (! (=> (not (= %s 0)) (and (not (= (i_tag (select %s %s)) 0)) (not (= (i_val (select %s %s)) 0)))) :pattern ((select %s %s))))", n, n, name, n, name, n, name, n))
+			g.assumeGlobal(fmt.Sprintf("(forall ((%s Int)) (! (=> (tnode %s) (and (not (= (i_tag %s) 0)) (tnode (i_val %s)))) :pattern (%s)))", n, n, sel, sel, sel))
 		} else {
 			// no typed-nil inside interface fields
-			g.assumeGlobal(fmt.Sprintf("(forall ((%s Int)) (! (=> (not (= (i_tag (select %s %s)) 0)) (not (= (i_val (select %s %s)) 0))) :pattern ((select %s %s))))", n, name, n, name, n, name, n))
+			g.assumeGlobal(fmt.Sprintf("(forall ((%s Int)) (! (=> (and (tnode %s) (not (= (i_tag %s) 0))) (tnode (i_val %s))) :pattern (%s)))", n, n, sel, sel, sel))
 		}
 	case sort == arr("Int", "Slice"):
 		if astNodeLists[tf] {
@@ -111,7 +117,7 @@ func (g *gen) astValidAxioms(key, name, sort string) {
 	if tf == "CallExpr.Ellipsis" {
 		// f(xs...) has at least the variadic argument
 		args := g.heapInit(fieldKey("go/ast.CallExpr", "Args"), arr("Int", "Slice"))
-		g.assumeGlobal(fmt.Sprintf("(forall ((%s Int)) (! (=> (not (= (select %s %s) 0)) (>= (s_len (select %s %s)) 1)) :pattern ((select %s %s))))", n, name, n, args, n, name, n))
+		g.assumeGlobal(fmt.Sprintf("(forall ((%s Int)) (! (=> (and (tnode %s) (not (= %s 0))) (>= (s_len (select %s %s)) 1)) :pattern (%s)))", n, n, sel, args, n, sel))
 	}
 	// switch bodies hold clauses of the right kind
 	switch tf {
@@ -132,17 +138,17 @@ func (g *gen) astListAxioms(tf, name string) {
 	if ifaceLists[tf] {
 		e := g.heapInit(elemKey("Iface"), arr("Int", arr("Int", "Iface")))
 		el := app("select", app("select", e, app("s_base", sl)), sidx(app("s_off", sl), i))
-		g.assumeGlobal(fmt.Sprintf("(forall ((%s Int) (%s Int)) (! (=> %s (and (not (= (i_tag %s) 0)) (not (= (i_val %s) 0)))) :pattern (%s)))", n, i, guard, el, el, el))
+		g.assumeGlobal(fmt.Sprintf("(forall ((%s Int) (%s Int)) (! (=> (and (tnode %s) %s) (and (not (= (i_tag %s) 0)) (tnode (i_val %s)))) :pattern (%s)))", n, i, n, guard, el, el, el))
 	} else {
 		e := g.heapInit(elemKey("Int"), arr("Int", arr("Int", "Int")))
 		el := app("select", app("select", e, app("s_base", sl)), sidx(app("s_off", sl), i))
-		g.assumeGlobal(fmt.Sprintf("(forall ((%s Int) (%s Int)) (! (=> %s (not (= %s 0))) :pattern (%s)))", n, i, guard, el, el))
+		g.assumeGlobal(fmt.Sprintf("(forall ((%s Int) (%s Int)) (! (=> (and (tnode %s) %s) (tnode %s)) :pattern (%s)))", n, i, n, guard, el, el))
 	}
 	// the backing arrays of syntax-tree lists are part of the (immutable) tree
 	g.declareFun("astlist", []string{"Int"}, "Bool")
-	g.assumeGlobal(fmt.Sprintf("(forall ((%s Int)) (! (astlist (s_base %s)) :pattern (%s)))", n, sl, sl))
+	g.assumeGlobal(fmt.Sprintf("(forall ((%s Int)) (! (=> (tnode %s) (astlist (s_base %s))) :pattern (%s)))", n, n, sl, sl))
 	if astNonEmptyLists[tf] {
-		g.assumeGlobal(fmt.Sprintf("(forall ((%s Int)) (! (=> (not (= %s 0)) (>= (s_len %s) 1)) :pattern (%s)))", n, n, sl, sl))
+		g.assumeGlobal(fmt.Sprintf("(forall ((%s Int)) (! (=> (tnode %s) (>= (s_len %s) 1)) :pattern (%s)))", n, n, sl, sl))
 	}
 }
 
@@ -162,5 +168,15 @@ func (g *gen) astClauseAxiom(tf, name string) {
 	i := g.freshName("avi")
 	sl := app("select", list, app("select", name, n))
 	el := app("select", app("select", e, app("s_base", sl)), sidx(app("s_off", sl), i))
-	g.assumeGlobal(fmt.Sprintf("(forall ((%s Int) (%s Int)) (! (=> (and (not (= %s 0)) (<= 0 %s) (< %s (s_len %s))) (= (i_tag %s) %s)) :pattern (%s)))", n, i, n, i, i, sl, el, tag, el))
+	g.assumeGlobal(fmt.Sprintf("(forall ((%s Int) (%s Int)) (! (=> (and (tnode %s) (<= 0 %s) (< %s (s_len %s))) (= (i_tag %s) %s)) :pattern (%s)))", n, i, n, i, i, sl, el, tag, el))
+}
+
+
+// declTnode declares the predicate "is a node of a parsed tree"; nil is not a node.
+func (g *gen) declTnode() {
+	if g.declared["tnode"] {
+		return
+	}
+	g.declareFun("tnode", []string{"Int"}, "Bool")
+	g.assumeGlobal("(not (tnode 0))")
 }
